@@ -3,6 +3,7 @@ from __future__ import annotations
 
 import ast
 
+from ..guards import guarded
 from ..core import Ctx, assigned_names, dotted, norm, presence_test, stmts_local, walk_local
 from ..effects import Effects
 from ..hashrules import citation_classes, run_hash_rules, run_resource_rules
@@ -127,8 +128,26 @@ def rule_normalisation_reached(ctx: Ctx):
         ctx.ob("R-C16-5", f"{qual}/guess_edition-reached", ok and n > 0,
                f"`{var}` is normalised (guess_edition reached through add_metadata's super() chain or called directly) on all {n} return path(s)"
                if ok else why, node=fn, mod=fm)
-    # corrected_reporter prefers the guessed edition
+    # R-C16-9: the normalised *text* names the reporter the *hash* uses.  corrected_citation() rewrites the reporter group; what it writes must be
+    # corrected_reporter() (or, equivalently, the guessed edition's short name under a test of the guess): a second notion of "official spelling"
+    # makes the normalised text re-parse to a citation that hashes differently from the one it came from
     mm = repo.mod("models")
+    cc = repo.func("models.ResourceCitation.corrected_citation")
+    if cc is not None:
+        S_ = cc.args.args[0].arg
+        n_rep = 0
+        for c_ in [x for x in walk_local(cc) if isinstance(x, ast.Call) and isinstance(x.func, ast.Attribute) and x.func.attr == "replace" and len(x.args) == 2]:
+            if "reporter" not in norm(c_.args[0]):
+                continue
+            n_rep += 1
+            new_ = norm(c_.args[1])
+            okr = new_ == f"{S_}.corrected_reporter()" or (new_ == f"{S_}.edition_guess.short_name" and guarded(cc, c_, {f"{S_}.edition_guess"}))
+            ctx.ob("R-C16-9", "models.ResourceCitation.corrected_citation/reporter-written", okr,
+                   f"the reporter group is replaced by `{new_[:60]}`; it must be {S_}.corrected_reporter() or the guessed edition's short name under a test of "
+                   "the guess -- the value equality and hash are computed from", node=c_, mod=mm)
+        ctx.ob("R-C16-9", "models.ResourceCitation.corrected_citation/reporter-replacements", n_rep >= 1, f"{n_rep} replacement(s) of the reporter group inspected", node=cc, mod=mm,
+               nontrivial=False)
+    # corrected_reporter prefers the guessed edition
     cr = repo.need_func("models.ResourceCitation.corrected_reporter")
     S = cr.args.args[0].arg
     okc, n_ret = True, 0
@@ -174,7 +193,7 @@ def _classes_of(repo, fn, var):
     return sorted(out)
 
 
-def rule_edition_table(ctx: Ctx):
+def rule_edition_table(ctx: Ctx, rule: str = "R-C16-7"):
     """R-C16-7: the generated extractor table says, per spelling, exactly what reporters-db says.  Two citations that differ only in the
     reporter spelling are equal iff both spellings lead to the same single candidate edition; a spelling that picks up an edition the
     database does not list for it (or loses one) changes which citations are equal.  Decided on data: the candidate editions attached to
@@ -188,7 +207,7 @@ def rule_edition_table(ctx: Ctx):
     tm = ctx.repo.mod("tokenizers")
     dbmap = data.get("db_edition_map")
     if not dbmap:
-        ctx.ob("R-C16-7", "reporters-db/edition-map", False, "reporters-db edition map not materialised", node=None, mod=tm)
+        ctx.ob(rule, "reporters-db/edition-map", False, "reporters-db edition map not materialised", node=None, mod=tm)
         return
     var = collections.defaultdict(set)
     exact = collections.defaultdict(set)
@@ -232,10 +251,10 @@ def rule_edition_table(ctx: Ctx):
             for k_, c_ in g.items():
                 if c_ > max(db[s_][k_] for s_ in e["strings"]):
                     dup.append((e["strings"][0], kind, k_[0], c_))
-    ctx.ob("R-C16-7", "extractors/no-edition-listed-more-often-than-in-reporters-db", not dup,
+    ctx.ob(rule, "extractors/no-edition-listed-more-often-than-in-reporters-db", not dup,
            f"no extractor carries an edition more often than reporters-db has (reporter, edition) rows for its spelling; {len(dup)} do{': ' + str(dup[:3]) if dup else ''}",
            node=None, mod=tm)
-    ctx.ob("R-C16-7", "extractors/candidate-editions-agree-with-reporters-db", not bad and len(keys) > 3000 and n_ext > 4000,
+    ctx.ob(rule, "extractors/candidate-editions-agree-with-reporters-db", not bad and len(keys) > 3000 and n_ext > 4000,
            f"for each of the {len(keys)} reporter spellings, the exact-name and variation candidate editions of the extractors that carry it are exactly the "
            f"editions reporters-db gives for that spelling ({len(bad)} spellings disagree{detail})", node=None, mod=tm)
 
